@@ -160,3 +160,16 @@ def fnum(x):
 
 def close(a, b, rel=1e-9, abs_=1e-9):
     return abs(a - b) <= max(abs_, rel * max(abs(a), abs(b)))
+
+
+def common_facts(case):
+    """facts used to match known findings (known_findings.json: match.where)"""
+    req = case.get("req", {})
+    mp = req.get("mp", {})
+    return {
+        "pi": req.get("pi"),
+        "office": case.get("office"),
+        "hu": req.get("hu"),
+        "lambda_zero": ("lambda_" in mp and mp["lambda_"] == 0),
+        "fe_nonempty": bool(req.get("fe")),
+    }
